@@ -228,6 +228,8 @@ def cases(tier):
             yield ("pairing", libset, prod)
     for mi in range(len(c11.MODELS)):
         yield ("faults", mi)
+    for cons1 in sorted(SIG.table("csv")):
+        yield ("shared", cons1)
 
 
 def _setup_dir(libset):
@@ -419,6 +421,68 @@ def _run_pairing(case):
     return {"evals": max(evals, 1), "nontrivial": evals, "judged": judged, "viols": viols, "outcomes": outcomes, "sample": sample}
 
 
+def _run_shared(case):
+    """one producer consumed by TWO commands: every producer class x every ordered pair of consumer slots (file order = pair order)"""
+    _, cons1 = case
+    libset, libs = "csv", CSV
+    table = SIG.table(libset)
+    work = _setup_dir(libset)
+    _wrap_all()
+    viols, outcomes = [], {}
+    evals = judged = 0
+    sample = None
+    producers = {"A": ("data", False), "AF": ("data", True), "PV": ("bool", False)}
+
+    def slot_exp(outkind, fz, prod):
+        pkind, pfz = producers[prod]
+        if fz == "fz" and not pfz:
+            return ("ResultNotFuzzy",)
+        if fz == "nf" and pfz:
+            return ("ResultIsFuzzy",)
+        if outkind == "data" and pkind != "data":
+            return ("ResultTypeNotValid",)
+        return None
+
+    def cargs(cons, slot, is_list, prod, tag):
+        out = []
+        for n, v in _baseline(cons, libset):
+            if n == slot:
+                v = ("list", [("bare", prod)] + v[1][1:]) if is_list else ("bare", prod)
+            if n == "OutFileName":
+                v = ("q", "shared_%s%s" % (tag, os.path.splitext(v[1])[1]))
+            if cons == "PrintVars" and n == "InFieldNames":
+                v = ("list", [("bare", prod)])
+            out.append((n, v))
+        return out
+
+    try:
+        for slot1, l1, k1, f1 in SIG.result_slots(cons1, libset):
+            for cons2 in sorted(table):
+                for slot2, l2, k2, f2 in SIG.result_slots(cons2, libset):
+                    for prod in producers:
+                        e1, e2 = slot_exp(k1, f1, prod), slot_exp(k2, f2, prod)
+                        prog = _prefix(libset) + [("T1", cons1, cargs(cons1, slot1, l1, prod, "1")), ("T2", cons2, cargs(cons2, slot2, l2, prod, "2"))]
+                        text = G.render(G.items_of(prog))[0]
+                        ob = _observe(text, libs, work)
+                        evals += 1
+                        judged += 1
+                        classes = tuple(x[0] for x in (e1, e2) if x)
+                        exp = ("reject", classes) if classes else ("accept",)
+                        tag = {"producer": prod, "first_consumer": "%s.%s" % (cons1, slot1), "second_consumer": "%s.%s" % (cons2, slot2), "text": text}
+                        sample = tag
+                        which = "none-faulty" if not classes else ("both-faulty" if e1 and e2 else ("first-faulty" if e1 else "second-faulty"))
+                        oc = _judge(exp, ob, viols, "shared-producer:%s:%s" % (producers[prod][0] + ("-fuzzy" if producers[prod][1] else ""), which),
+                                    "%s consumed by %s.%s then %s.%s" % (prod, cons1, slot1, cons2, slot2), tag)
+                        k = "shared:%s:%s" % (which, oc)
+                        outcomes[k] = outcomes.get(k, 0) + 1
+            if len(viols) > 40:
+                del viols[40:]
+    finally:
+        import shutil
+        shutil.rmtree(work, ignore_errors=True)
+    return {"evals": max(evals, 1), "nontrivial": evals, "judged": judged, "viols": viols, "outcomes": outcomes, "sample": sample}
+
+
 def _run_faults(case):
     _, mi = case
     work = _setup_dir("csv")
@@ -558,4 +622,6 @@ def run(case):
         return _run_matrix(case)
     if case[0] == "pairing":
         return _run_pairing(case)
+    if case[0] == "shared":
+        return _run_shared(case)
     return _run_faults(case)
